@@ -385,11 +385,15 @@ func (c *Ctx) ruleListenerHarmless(rule string) {
 		return nil
 	}
 	cmpVars := map[types.Object]bool{}
+	cmpNeg := map[types.Object]bool{} // the local holds "is NOT the current one" (stale := w.ctx != c)
 	// current := w.ctx == c   (under the lock)
 	ast.Inspect(R.Listener.Body, func(n ast.Node) bool {
 		if as, ok := n.(*ast.AssignStmt); ok && len(as.Lhs) == 1 && len(as.Rhs) == 1 {
 			if isCtxCompare(info, as.Rhs[0], R.FCtx, param) {
 				cmpVars[rootIdent(info, as.Lhs[0])] = true
+				if be, _ := binOp(as.Rhs[0]); be != nil && be.Op == token.NEQ {
+					cmpNeg[rootIdent(info, as.Lhs[0])] = true
+				}
 			}
 		}
 		return true
@@ -405,7 +409,7 @@ func (c *Ctx) ruleListenerHarmless(rule string) {
 			return ""
 		}
 		if id, ok := ast.Unparen(e).(*ast.Ident); ok && cmpVars[info.ObjectOf(id)] {
-			return fmt.Sprintf("current=%v", branch)
+			return fmt.Sprintf("current=%v", branch != cmpNeg[info.ObjectOf(id)])
 		}
 		if isCtxCompare(info, e, R.FCtx, param) {
 			be, _ := binOp(e)
